@@ -583,6 +583,28 @@ def check(pid, tier):
             if sig in sigs:
                 continue
             sigs.add(sig)
+        if not ok and how.startswith("enum") and not (v in AUX and AUX[v]["tsan"]) and not spec.get("tsan"):
+            # A case of a deterministic enumeration that fails there but passes when executed alone depends on what the cases before it left
+            # behind in the process (a history): the reproducible unit is the enumeration shard itself.  It is run again, twice; when both runs
+            # fail, the violation is reported with a replay file that names the shard (verif.py replay re-runs it).
+            m_ = re.search(r"enum-.*-(\d+)\.case", os.path.basename(path))
+            if m_:
+                shard_ = m_.group(1)
+                ns_ = str(AUX[v]["enum_shards"][tier] if v in AUX else cfg.get("enum_shards", 16))
+                cmd_ = [bins[v]["prop"], "enum", "--shard", shard_, "--nshards", ns_, "--tier", "0" if tier == "quick" else "1"]
+                env_ = dict(os.environ); env_.update(envbase); env_.update(venv(v))
+                outs_ = []
+                for _ in range(2):
+                    try:
+                        rr_ = subprocess.run(cmd_, stdout=subprocess.PIPE, stderr=subprocess.STDOUT, env=env_, timeout=1800)
+                        outs_.append((rr_.returncode, rr_.stdout.decode("utf-8", "replace")))
+                    except subprocess.TimeoutExpired:
+                        outs_.append((0, ""))
+                if all(rc_ != 0 for rc_, _o in outs_):
+                    ok = True
+                    text = "   why: [depends on the cases enumerated before it in the same process] " + (re.search(r"FAIL (.*)", outs_[0][1]) or re.search(r"(.*)", outs_[0][1][-300:])).group(1) + "\n" + outs_[0][1][-1500:]
+                    blob = ("ENUMSHARD %s %s %s %s\n" % (v or "-", shard_, ns_, "0" if tier == "quick" else "1")).encode()
+                    digest = hashlib.sha256(blob + pid.encode()).hexdigest()[:12]
         if not ok:
             notes.append("candidate from %s did not reproduce under replay (%s); not reported" % (how, "0 of 48" if (spec.get("tsan") or (v in AUX and AUX[v]["tsan"])) else "3 of 3 required"))
             continue
@@ -696,6 +718,19 @@ def main():
         pid = a.args[0]
         rc = 0
         todo = [(v, pid, v, {}) for v in all_variants(PROPS[pid])] + [(v, AUX[v]["pid"], "", {"VERIF_FAMILY": pid}) for v in aux_variants(pid)]
+        try:
+            head = open(a.args[1], "rb").read(200)
+        except OSError:
+            head = b""
+        if head.startswith(b"ENUMSHARD "):      # a whole enumeration shard is the reproducible unit (see check())
+            _, v_, shard_, ns_, t_ = head.decode().split()[:5]
+            v_ = "" if v_ == "-" else v_
+            for v, bp, bv, extra in todo:
+                if v == v_:
+                    b = build_prop(bp, bv)
+                    env = dict(os.environ); env["ASAN_OPTIONS"] = ASAN_ENV; env.update(extra)
+                    return 1 if subprocess.run([b["prop"], "enum", "--shard", shard_, "--nshards", ns_, "--tier", t_], env=env).returncode else 0
+            return 0
         names = " ".join(os.path.basename(x) for x in a.args[1:])
         for v, bp, bv, extra in todo:
             if v in AUX and ("-" + v + "-") not in names:
